@@ -7,6 +7,10 @@ Every mapping node kind has at least one key of three or more letters (`yaw`, `q
 `leaf`, `items`, `inner`, ...): the foreign-key name classes "truncated" (a defined key minus its last letter) and
 "extended" (a defined key plus one letter) need a key whose truncation is itself not defined and is longer than one
 letter (one-letter tokens occur in error texts by accident: "doesn't").
+
+Construction axes (shapes `links`, `underscore`, `ungrouped`): `Src` is a source of argument links; the `U*` classes have
+parameters whose NAME begins with an underscore - a required one is an ordinary required key, an optional one is
+"internal and ignored" by the library's documented rule (the schema reader applies that rule, it does not ask the library).
 """
 from dataclasses import dataclass
 from typing import Dict, List, NotRequired, Optional, TypedDict, Union
@@ -77,3 +81,37 @@ class TD(TypedDict):
 
 
 PtOrInt = Union[Pt, int]
+
+
+class Src:
+    """Source of argument links (shape `links`): both parameters have defaults."""
+
+    def __init__(self, size: int = 3, tag: str = "t"):
+        self.size, self.tag = size, tag
+
+
+@dataclass
+class UPt:
+    """Dataclass with a required underscore-named field and an optional (hidden) one."""
+
+    _id: int
+    nam: str = "n"
+    _hid: int = 0
+
+
+class UCl:
+    def __init__(self, _end: int, tmo: int = 5, _cache: int = 0):
+        self._end, self.tmo = _end, tmo
+
+
+class UClB(UCl):
+    def __init__(self, _end: int, _key: str, tmo: int = 5):
+        super().__init__(_end, tmo)
+        self._key = _key
+
+
+class UGrp:
+    """Class group whose required keys are underscore-named at every level."""
+
+    def __init__(self, _g1: int, _upt: UPt, ucl: UCl, gg2: int = 5):
+        self._g1, self._upt, self.ucl, self.gg2 = _g1, _upt, ucl, gg2
